@@ -309,7 +309,7 @@ func raceDeath(kind string, exitCode int, stderr string) string {
 }
 
 func init() {
-	common := "plan = a shared world (3-6 bitmaps of 1-40 words in six shapes with all their rank/select indexes, 2-4 ascending key lists over {00 a b 80 ff} or all bytes with shared prefixes up to 20 bytes and their bitstr encodings / bitword words / SigBits, 2-4 level masks of height <= 8 with their paths, 1-3 joined word arrays) + 2-4 tasks x 5-40 operations drawn from a 43-function catalogue (arguments valid by construction; a run focuses on 1-8 functions and 3 objects; a third of the operations repeat an earlier query, a quarter repeat another task's) + a hashed schedule + 3 stack-poison patterns. Three phases: sequential reference (each op twice: two poisons, direct call vs call through a function value), simulated concurrent execution, audit (results equal, retained results intact, inputs and package tables unchanged). "
+	common := "plan = a shared world (3-6 bitmaps of 1-40 words in six shapes with all their rank/select indexes, 2-4 ascending key lists over {00 a b 80 ff} or all bytes with shared prefixes up to 20 bytes and their bitstr encodings / bitword words / SigBits, 2-4 level masks of height <= 8 with their paths, 1-3 joined word arrays) + 2-4 tasks x 5-40 operations drawn from a 48-function catalogue (arguments valid by construction, plus the one documented refusal: Select32 with an i its index does not cover, whose panic value is an outcome like any other; a run focuses on 1-8 functions and 3 objects; a third of the operations repeat an earlier query, a quarter repeat another task's) + a hashed schedule + 3 stack-poison patterns. Three phases: sequential reference (each op twice: two poisons, direct call vs call through a function value), simulated concurrent execution, audit (results equal, retained results intact, inputs and package tables unchanged). "
 	Register(&Info{
 		Sc:   Readers{yield: false},
 		Rule: common + "R flavour: -race binary, one task at a time, hand-off by raw pipe syscalls in //go:norace code so ThreadSanitizer sees no happens-before edge between tasks; a report with a frame in the five packages is C19.race. Non-trivial: >= 2 tasks AND >= 1 context switch. Distinct: by plan hash (set).",
